@@ -59,7 +59,7 @@ REGISTERED = {
             "Probing connections (wrong greeting, right prefix wrong id, duplicate genuine greeting, split greeting, silent, flooding) are raced against the genuine client; each must receive zero bytes and be closed unless adopted, at most one connection is adopted, in-band bytes are ignored once the tunnel is agreed, and a missing tunnel falls back in-band with the same result. Twin cases present the right greeting on a second connection at the same moment as the genuine one (at most one adopted; adoption read from the kernel receive queue); connector 'answer-late' makes the server adopt a connection the client has given up on.",
             "loopback sockets; relay tunnel attacked the same way only in the thorough tier", "DESIGN.md 5/C17"),
     "C18": ("runtime monitoring: pause/resume injection at every message boundary with pause-window silence monitor on the wire tap",
-            "A pause is begun at each gate point and resumed after lengths below, around and above the timeout; short pauses must end in success with identical files, any pause must end within the bound without false success, and between pause and resume the paused side may start at most one DATA message, everything else being keep-alives. Extra plans: server silent after the resume, server silent from before the pause (the read blocked across the resume must still time out), and a second pause of 0.9 x timeout inside a return-link stall on a slow busy uplink (must succeed).",
+            "A pause is begun at each gate point and resumed after lengths below, around and above the timeout; short pauses must end in success with identical files, any pause must end within the bound without false success, and between pause and resume the paused side may start at most one DATA message, everything else being keep-alives. Extra plans: server silent after the resume, server silent from before the pause (the read blocked across the resume must still time out), a second pause of 0.9 x timeout inside a return-link stall on a slow busy uplink (must succeed), and a pause that begins while a block is being sent in pieces after the sender reduced its buffer size (one acknowledgement held for 6.5 s under a 20 s time-out).",
             "wall-clock pause lengths relative to a 3 s configured timeout; confirm-alone rule for misses", "DESIGN.md 5/C18"),
     "C19": ("runtime monitoring: scripted fake rz/sz helper and scripted server against the real zmodem bridge with hand-back probes",
             "For each (helper behaviour, server behaviour, user action) the session must send the cancel sequence to the side still waiting and, after the server has been quiet for 1.5 s, pass a probe text through to the terminal and typed input to the server. In more than half of the cases the user types first (a letter and Ctrl-C) before the remote side says anything after the session.",
